@@ -65,7 +65,7 @@ def m_pad(ev, args, kw, node):
     rec = ("PAD", b.get("boundary_width"), b.get("boundary"), b.get("fill_value"), b.get("grid"), b.get("other_component"))
     ev.events.append(("pad",) + rec[1:] + (d, node))
     bw = b.get("boundary_width")
-    pads = isinstance(bw, dict) and any(tuple(w) != (0, 0) for w in bw.values())
+    pads = isinstance(bw, dict) and any(not isinstance(w, (tuple, list)) or tuple(w) != (0, 0) for w in bw.values())
     if isinstance(d, Obj):
         # pad() works on coordinate-stripped data (C19 R19.3) and hands its input back untouched when every width is zero
         return d.with_eff(rec, coords={}) if (pads and "coords" in d.attrs) else d.with_eff(rec)
